@@ -121,6 +121,9 @@ where
                         let result = fun(argument).await;
                         let _ = result_tx.send(result);
                     }
+
+                    // Provider kept and request channel closed or failed.
+                    else => (),
                 }
             }
             .in_current_span(),
